@@ -126,7 +126,19 @@ fn field_entries(s: &str, t: &mut Tally) {
 fn replace_leaves(v: &Value, path: &mut Vec<String>, out: &mut Vec<(String, Value)>, root: &Value) {
     match v {
         Value::Object(m) => for (k, x) in m { path.push(k.clone()); replace_leaves(x, path, out, root); path.pop(); },
-        Value::Array(a) => for (i, x) in a.iter().enumerate() { path.push(i.to_string()); replace_leaves(x, path, out, root); path.pop(); },
+        Value::Array(a) => {
+            // the array itself: emptied, cut to one element, first element repeated 11 times
+            let mut alts = vec![Value::Array(vec![])];
+            if let Some(first) = a.first() { alts.push(Value::Array(vec![first.clone()])); alts.push(Value::Array(std::iter::repeat(first.clone()).take(11).collect())); }
+            for alt in alts {
+                let mut r = root.clone();
+                let mut cur = &mut r;
+                for p in path.iter() { cur = if cur.is_array() { cur.get_mut(p.parse::<usize>().unwrap()).unwrap() } else { cur.get_mut(p.as_str()).unwrap() }; }
+                *cur = alt;
+                out.push((path.join("."), r));
+            }
+            for (i, x) in a.iter().enumerate() { path.push(i.to_string()); replace_leaves(x, path, out, root); path.pop(); }
+        }
         _ => {
             for alt in [Value::Null, json!(true), json!(-1), json!(1e308), json!("x"), json!(""), json!([]), json!({}), json!("\u{e9}\u{0660}")] {
                 let mut r = root.clone();
@@ -202,6 +214,28 @@ fn child(ctx: &Ctx, k: usize, n: usize) -> i32 {
         let base: String = hb.chars().cycle().take(l).collect();
         if mine() { header_entries(&base, &mut t); }
         for pos in 0..l { for sub in SUBST { if !mine() { continue; } let s: String = base.chars().enumerate().map(|(i, c)| if i == pos { sub.to_string() } else { c.to_string() }).collect(); header_entries(&s, &mut t); } }
+    }
+    // (c') real header shapes: every prefix, and every single substitution / insertion / deletion over class
+    // representatives, of a maximal block 1, input and output block 2, block 3 and block 5
+    let shapes = ["F01BANKBEBBAXXX0000000000", "I103BANKDEFFXXXXU3003", "O1031200240719BANKBEBBAXXX00001234562407191201N",
+        "{103:EBA}{113:URGT}{108:MUR1234567890123}{119:STP}{423:240719123045}{106:240719BANKBEBBAXXX0000000000}{424:RELREF}{111:001}{121:3c8c5a1e-7a3b-4b5e-9f1a-1d2e3f4a5b6c}{115:ADDRESSEE}{165:TPS/INFO}{433:AOK/SCREENED}{434:FPO/CONTROL}",
+        "{CHK:123456789ABC}{TNG}{PDE:1348120811BANKFRPPAXXX2222123456}{DLM}{MRF:1806271539180626BANKFRPPAXXX2222123456}{MAC:00000000}"];
+    const REPS: [&str; 14] = ["A", "z", "1", " ", "/", "-", "{", "}", ":", "\n", "\u{e9}", "\u{0660}", "\u{0}", "\u{1F600}"];
+    for sh in shapes {
+        let cs: Vec<char> = sh.chars().collect();
+        for l in 0..=cs.len() {
+            let prefix: String = cs[..l].iter().collect();
+            if mine() { header_entries(&prefix, &mut t); }
+            // mutations of every prefix would square the cost: mutate the full shape and its prefixes of "interesting" lengths only
+            if l != cs.len() && !(l >= 14 && l <= 24) && l < cs.len().saturating_sub(6) { continue; }
+            for pos in 0..=l {
+                for r in REPS {
+                    if mine() { let m: String = format!("{}{}{}", cs[..pos].iter().collect::<String>(), r, cs[pos..l].iter().collect::<String>()); header_entries(&m, &mut t); }
+                    if pos < l && mine() { let m: String = format!("{}{}{}", cs[..pos].iter().collect::<String>(), r, cs[pos + 1..l].iter().collect::<String>()); header_entries(&m, &mut t); }
+                }
+                if pos < l && mine() { let m: String = format!("{}{}", cs[..pos].iter().collect::<String>(), cs[pos + 1..l].iter().collect::<String>()); header_entries(&m, &mut t); }
+            }
+        }
     }
     t.entries.insert("headers".into());
     // (e) every concrete field type and every option family on every single boundary mutation of every
